@@ -51,15 +51,18 @@ def generators(repo):
 def curve_configs(repo, func):
     for basis in ("weight", "molar"):
         for mode, (ft, fp) in (("vac", ("none", "none")), ("T", ("notnone", "none")), ("p", ("none", "notnone"))):
-            for init in ("none", "notnone"):
+            for init, us in (("none", None), ("notnone", (KG, KG)), ("notnone", ("SI", "GPU"))):
                 facts = {"initial_feed_composition.type": ("str", basis), "permeate_temperature": ft, "permeate_pressure": fp,
-                         "initial_permeances": init, "precision": "notnone", "calculation_type": "notnone",
-                         "initial_permeances[0].units": ("str", KG), "initial_permeances[1].units": ("str", KG)}
+                         "initial_permeances": init, "precision": "notnone", "calculation_type": "notnone"}
+                if us:
+                    facts["initial_permeances[0].units"] = ("str", us[0])
+                    facts["initial_permeances[1].units"] = ("str", us[1])
                 for p in func.params:
                     if p.startswith(("n_", "m_")):
                         facts[p] = "notnone"
-                yield "basis=%s mode=%s initial_permeances=%s" % (basis, mode, "given" if init == "notnone" else "None"), facts, \
-                    {"basis": basis, "mode": mode, "initial_permeances": init}
+                yield "basis=%s mode=%s initial_permeances=%s%s" % (basis, mode, "given" if init == "notnone" else "None",
+                                                                   (" units=%s/%s" % us) if us else ""), facts, \
+                    {"basis": basis, "mode": mode, "initial_permeances": init, "units": us}
 
 
 def call_fit(repo, cfg, facts, fit: Val, x: Rat, t: Rat):
@@ -78,6 +81,8 @@ def run(ck):
     ck.undecided("what the optimiser returns (library numerics); negative fit values are clipped to 0 by Permeance (stated as assumption)")
     gens = generators(repo)
     ck.floor("non-ideal generators", len(gens), 3)
+    from ..purity import purity
+    purity(ck, repo, gens + [repo.find_function("find_best_fit"), repo.find_function("PervaporationFunction.__call__"), repo.find_function("PervaporationFunction.__mul__")])
     for func in gens:
         ck.analysed_function(func)
         is_curve = returns_constructor_of(repo, func, "DiffusionCurve")
@@ -271,16 +276,29 @@ def check_provenance(ck, repo, cfg, pm: PM, fits, is_curve):
             scaled = used.fields.get("a") is res.fields.get("a") or key_equiv(val_key(used.fields.get("a")), val_key(res.fields.get("a")))
         ck.ob("N1", fq, "the function of component %d is the result of its own best-fit search" % (i + 1), c.where, same or scaled,
               found=repr(used)[:200])
-        if scaled and single:
-            check_arrhenius(ck, repo, cfg, pm, i, res, used, c)
+        if single and isinstance(res, ObjV) and res.parent is not None:
+            check_arrhenius(ck, repo, cfg, pm, i, res, used, c, is_curve)
 
 
-def check_arrhenius(ck, repo, cfg, pm, i, raw, used, rec):
+def check_arrhenius(ck, repo, cfg, pm, i, raw, used, rec, is_curve=False):
     f = pm.func
     comp = "first" if i == 0 else "second"
     x, T = Rat.sym("#x", ("nonneg",)), Rat.sym("#T", ("nonneg", "pos"))
     cs = param_of_type(repo, f, "DiffusionCurveSet")
     Tc = Rat.sym("%s.diffusion_curves[0].feed_temperature" % cs)
+    # temperatures at which the model evaluates the fit: any T for a non-isothermal model, the (initial) feed temperature otherwise
+    Ts = pm.field("feed_temperature")
+    varying = isinstance(Ts, ListV) and Ts.kind == "series"
+    if not varying:
+        T0 = Ts.elem.r if isinstance(Ts, ListV) and Ts.kind == "rep" and isinstance(Ts.elem, Num) else (Ts.r if isinstance(Ts, Num) else None)
+        if T0 is None:
+            return
+        T = T0
+        # on the path where the curve temperature was found equal to the modelling temperature the two are one atom
+        for c, d in pm.out.trace:
+            if isinstance(c, tuple) and len(c) == 3 and c[0] == "eq" and isinstance(c[1], Rat) and d and \
+                    ((c[1] == Tc and c[2] == T0) or (c[2] == Tc and c[1] == T0)):
+                Tc = T0
     from ..procmodel import oracle
     Ea = oracle(pm, "self.membrane.calculate_activation_energy(self.mixture.%s_component)" % comp).r
     R = oracle(pm, "R").r
@@ -298,7 +316,8 @@ def check_arrhenius(ck, repo, cfg, pm, i, raw, used, rec):
     want = -Ea / R * (1 / T - 1 / Tc)
     resid = lhs - want
     # resid must be exactly the composition polynomial S_a(x) of the search result (independent of T, Tc, Ea, b0)
-    bad = [poly.T.get(j).name for j in resid.deps() if poly.T.get(j).kind == "sym" and poly.T.get(j).name in ("#T", Tc.single_atom().name)]
+    tnames = {a.name for a in (T.single_atom(), Tc.single_atom()) if a is not None}
+    bad = [poly.T.get(j).name for j in resid.deps() if poly.T.get(j).kind == "sym" and poly.T.get(j).name in tnames]
     dep_ea = any(j in Ea.deps() for j in resid.deps()) or raw_b0.single_atom().id in resid.deps()
     ck.ob("N4", f.qualname, "single curve: fit %d at temperature T equals the fit at the curve temperature times exp(-Ea/R (1/T - 1/Tc))" % (i + 1),
           rec.where, not bad and not dep_ea,
